@@ -121,6 +121,8 @@ type ServerConfig struct {
 	NoAcceptLoop bool // the caller (e.g. a SplitListener) accepts from the intercepting listener itself
 	// CustomCloseErr: once closed, the base listener's Accept fails with an error of its own instead of net.ErrClosed
 	CustomCloseErr bool
+	// BareBaseTLS: the base TLS configuration lists no application protocols (and has no GetConfigForClient)
+	BareBaseTLS bool
 	Unix         string
 }
 
@@ -202,6 +204,9 @@ func NewServer(cfg ServerConfig) (*Server, error) {
 			Certificates: []tls.Certificate{{Certificate: [][]byte{der}, PrivateKey: priv, Leaf: c}},
 			NextProtos:   []string{"h2", "app-proto", "__AUTH__", "__UNAUTH__", "other", "sp1", "sp2", "zz"},
 			MinVersion:   tls.VersionTLS12,
+		}
+		if cfg.BareBaseTLS {
+			s.BaseTLS.NextProtos = nil
 		}
 	}
 	opts := w.StorageOpts(cfg.ExtraOpts...)
